@@ -241,6 +241,7 @@ Definition get_finfo (p : pool) (who : acct) : option finfo := get who (p_farmer
 Definition stake (s : state) (who : acct) (pid : Z) (d : denom) (amt : Z) : result :=
   if pid <=? 0 then Fail Rej else       (* ValidatepPoolId comes before the coin check *)
   if amt <? 0 then Fail Abort else      (* sdk.NewCoins panics inside ValidateBasic *)
+  if amt =? 0 then Fail Rej else        (* MsgStake.ValidateBasic: the amount must be positive (fix of the genesis group) *)
   match get pid (pools s) with
   | None => Fail Rej
   | Some p =>
